@@ -95,6 +95,7 @@ static std::string rs_call(Resampling& r, std::mt19937_64& twin, long n, long li
     double u1 = twin_u1(twin, n);
     double ne = r.neff(cor.weight());
     r.resample(cor, res, par);
+    double ne2 = r.neff(cor.weight());                             // queried again after the call: the answers must agree
     Out o; o.s("ok");
     o.s((u1 > 0.0 && u1 < 1.0 / n) ? "u1-in-range" : "u1-out-of-range").d(u1);
     for (long i = 0; i < n; ++i) o.d(std::exp(w(i)));           // exp as computed by libm, as the code does
@@ -109,6 +110,7 @@ static std::string rs_call(Resampling& r, std::mt19937_64& twin, long n, long li
                 vh::same_bits(cor.covariance(), cor0.covariance()) && vh::same_bits(cor.weight(), cor0.weight());
     o.s(same ? "in-same" : "in-modified");
     out_shape(o, res);
+    o.s(vh::hx(ne) == vh::hx(ne2) ? "neff-same" : "neff-differs");
     return o.str();
 }
 
